@@ -21,7 +21,9 @@ TRUSTED = [
 ]
 
 THEOREMS = [("builder_yield", "theorem"), ("builder_root_chunk", "theorem"), ("builder_yield_orig_refuted", "refutation"),
-            ("lex_tiles", "theorem"), ("builder_example", "example")]
+            ("lex_tiles", "theorem"), ("mark_level_exact", "theorem"), ("markers_balanced_partial", "theorem"),
+            ("pump_emits_all", "theorem"), ("C01_main", "theorem"), ("lua_lexer_contract", "theorem"), ("lua_lex_tiles", "theorem"),
+            ("C01_lua", "theorem"), ("builder_example", "example"), ("lexer_example", "example"), ("pump_example", "example")]
 
 
 def regenerate_tables(ck):
@@ -151,6 +153,39 @@ def pcase_to_coq(c, trivia_kinds):
         ops_to_coq(c["ops"], c["tokens"], trivia_kinds), coq_list([ev_to_coq(e) for e in c["events"]]), c["discipline"]["mark_level"])
 
 
+def coq_reports(ck, name, case_terms, requires, fn, case_type, per_shard=40, timeout=1200):
+    """evaluate `fn : case_type -> N` on every case (vm_compute, sharded); returns the list of values or None"""
+    n = len(case_terms)
+    if n == 0:
+        return []
+    nshard = min(NCPU, max(1, n // per_shard))
+    idxs = [list(range(i, n, nshard)) for i in range(nshard)]
+    bodies = []
+    for ids in idxs:
+        b = "Local Open Scope N_scope.\n"
+        b += "Definition cases__ : list (%s) := [\n%s].\n" % (case_type, ";\n".join(case_terms[i] for i in ids))
+        b += "Eval vm_compute in (map %s cases__).\n" % fn
+        bodies.append(b)
+    results = ck.coq_eval_shards(name, bodies, requires, timeout)
+    vals = [None] * n
+    for (rc, out), ids in zip(results, idxs):
+        if rc != 0:
+            ck.tie_broken("correspondence evaluation %s did not compile/finish (model or checker broken)" % name, out[-3000:])
+            return None
+        m = re.search(r"=\s*\[(.*?)\]\s*:\s*list N", out, re.S)
+        if not m:
+            ck.tie_broken("unparsable correspondence output for %s" % name, out[-1000:])
+            return None
+        xs = [int(x) for x in re.findall(r"\d+", m.group(1))]
+        if len(xs) != len(ids):
+            ck.tie_broken("correspondence output for %s has %d values for %d cases" % (name, len(xs), len(ids)), "")
+            return None
+        for i, x in zip(ids, xs):
+            vals[i] = x
+    ck.cov["traces_validated_against_impl"] += n
+    return vals
+
+
 def text_of(c):
     return "".join(chr(x) for x in c["t"])
 
@@ -207,9 +242,48 @@ def correspondence(ck, binpath, n_traces, n_events):
             ck.violation("corr:" + "tree-text", "tree text differs from the input %r (level %d, doc %s)" % (text_of(c), c["level"], c["doc"]),
                          {"text": text_of(c), "level": c["level"], "doc": c["doc"]})
         ck.count_case(("trace", tuple(c["t"]), c["level"], c["doc"]), nontrivial=len(c["events"]) > 3)
-    more = sys.modules.get("c01_more")
-    if more is not None:
-        more.correspondence(ck, cases)
+    # (2b) the Lua lexer: model token list = real token list (kinds and ranges), per language level
+    lterms = ["{| lc_text := %s; lc_level := %d; lc_alpha := %s; lc_alnum := %s; lc_tokens := %s |}" % (
+        coq_list([str(x) for x in c["t"]]), c["level"], coq_list([str(x) for x in c.get("alpha", [])]),
+        coq_list([str(x) for x in c.get("alnum", [])]), coq_list([tok_to_coq(t) for t in c["tokens"]])) for c in cases]
+    failing = ck.coq_failing("corr_lexer", lterms, ["EV.C01.Model", "EV.C01.Corr"], check_fn="check_lex", case_type="lcase", per_shard=60)
+    for i in (failing or []):
+        ck.tie_broken("model/implementation disagreement: token list of the Lua lexer for %r (level %d)" % (text_of(cases[i]), cases[i]["level"]),
+                      json.dumps({k: cases[i][k] for k in ("t", "level", "tokens")})[:3000])
+    ck.cov["distribution"]["corr_lexer_texts"] = len(lterms)
+    ck.cov["distribution"]["corr_lexer_texts_with_non_ascii"] = sum(1 for c in cases if any(x > 127 for x in c["t"]))
+
+    # (3) the token pump: replay the recorded operation sequence of the real parser through the model pump
+    tables = c01_tables.extract(REPO)
+    tkidx = {n: i for i, n in enumerate(tables["token_kinds"])}
+    trivia = {tkidx[n] for n in tables["pump_trivia"]}
+    try:
+        pterms = [pcase_to_coq(c, trivia) for c in cases]
+    except ValueError as ex:
+        ck.tie_broken("recorded operation trace has an unexpected shape: %s" % ex, "")
+        pterms = None
+    if pterms is not None:
+        reps = coq_reports(ck, "corr_pump", pterms, ["EV.C01.Model", "EV.C01.Pump", "EV.C01.Corr"], "pump_report", "pcase", per_shard=40)
+        bad_doc = bad_disc = bad_prefix = 0
+        for c, r in zip(cases, reps or []):
+            where = "%r (level %d, doc %s)" % (text_of(c), c["level"], c["doc"])
+            if not r & 1:
+                ck.tie_broken("model/implementation disagreement: the model pump, driven by the parser's recorded operations, does not "
+                              "reproduce the real event list / mark level for %s" % where, json.dumps(c["ops"])[:3000])
+            if not r & 2:
+                bad_doc += 1
+                if c["tree_text_ok"]:
+                    ck.notes.append("doc-parser run did not tile its range, yet the tree text is intact: %s" % where)
+            if not r & 4:
+                bad_disc += 1
+                ck.tie_broken("a real trace violates the client discipline assumed by mark_level_exact / pump_emits_all: %s" % where,
+                              json.dumps(c["ops"])[:3000])
+            if not r & 8:
+                bad_prefix += 1
+        ck.cov["distribution"]["corr_pump_replays"] = len(reps or [])
+        ck.cov["distribution"]["corr_traces_doc_parser_not_tiling"] = bad_doc
+        ck.cov["distribution"]["corr_traces_violating_client_discipline"] = bad_disc
+        ck.cov["distribution"]["corr_traces_with_a_negative_prefix_depth (unproved part of markers_balanced)"] = bad_prefix
     ck.cov["distribution"]["corr_real_traces"] = len(cases)
     ck.cov["distribution"]["corr_real_traces_with_syntax_errors"] = with_err
     ck.cov["distribution"]["corr_real_traces_unbalanced_events"] = unbalanced
